@@ -79,6 +79,7 @@ type Op struct {
 	GasU   int64
 	Hash   []byte
 	Panic  bool
+	Log    string // DeliverTx log (diagnostics only, never compared)
 }
 
 // TxResult is the projected DeliverTx outcome.
@@ -177,7 +178,16 @@ var consensusParams = func() *abci.ConsensusParams {
 
 // Replay re-executes a recorded run on a fresh application instance and returns what each call returned.
 func Replay(genesis []byte, t0 time.Time, ops []Op) []Op {
-	app := newApp(dbm.NewMemDB())
+	return ReplayRestarting(genesis, t0, ops, 0)
+}
+
+// ReplayRestarting: as Replay, but after every restartEvery-th Commit (0 = never) the application instance is thrown away
+// and a new one is opened on the same database — a node that restarts, or one that joins from a snapshot, must go on
+// exactly as the node that has been running all along (nothing an instance remembers may matter).
+func ReplayRestarting(genesis []byte, t0 time.Time, ops []Op, restartEvery int) []Op {
+	db := dbm.NewMemDB()
+	app := newApp(db)
+	commits := 0
 	app.InitChain(abci.RequestInitChain{Time: t0, Validators: []abci.ValidatorUpdate{}, ConsensusParams: consensusParams, AppStateBytes: genesis})
 	app.Commit()
 	out := make([]Op, len(ops))
@@ -195,11 +205,15 @@ func Replay(genesis []byte, t0 time.Time, ops []Op) []Op {
 				app.BeginBlock(abci.RequestBeginBlock{Header: tmproto.Header{Height: o.Height, Time: o.Time, ChainID: ""}})
 			case 2:
 				res := app.DeliverTx(abci.RequestDeliverTx{Tx: o.Tx})
-				r.Code, r.Data, r.GasW, r.GasU = res.Code, res.Data, res.GasWanted, res.GasUsed
+				r.Code, r.Data, r.GasW, r.GasU, r.Log = res.Code, res.Data, res.GasWanted, res.GasUsed, res.Log
 			case 3:
 				app.EndBlock(abci.RequestEndBlock{Height: o.Height})
 			case 4:
 				r.Hash = app.Commit().Data
+				commits++
+				if restartEvery > 0 && commits%restartEvery == 0 {
+					app = newApp(db)
+				}
 			}
 		}()
 		out[i] = r
